@@ -31,6 +31,7 @@ Record Inv3 (s : state) : Prop := {
   i3_tot : tot_ok s;
   i3_c2 : closed s = true -> conn s = false;
   i3_c3 : conn s = false -> closed s = true \/ io_hc_late (io s) = true;
+  i3_late : io_hc_late (io s) = true -> conn s = false;
   i3_n : forall j p n, nth_error (ws s) j = Some p -> wpc_n p = Some n -> 0 < n
 }.
 
@@ -59,6 +60,11 @@ Proof.
   intros s H j p n Hj Hn. apply ws_add_task_inv in Hj. destruct Hj as [->|Hj]; [discriminate|eauto].
 Qed.
 
+Lemma add_task_fields3 : forall s,
+  pend (add_task s) = pend s /\ total (add_task s) = total s /\ conn (add_task s) = conn s /\
+  closed (add_task s) = closed s /\ io (add_task s) = io s.
+Proof. intros. unfold add_task. simpl. destruct (qwait s); simpl; auto. Qed.
+
 Ltac z_hyps :=
   repeat match goal with
          | H : (_ <=? _) = true |- _ => apply Z.leb_le in H
@@ -73,14 +79,45 @@ Ltac z_hyps :=
 Lemma inv3_step_io : forall c s ch s' l,
   Inv3 s -> step_io c s ch = Some (s', l) -> taint s' = false -> Inv3 s'.
 Proof.
-  intros c s ch s' l [Hpe Ht3 Hc2 Hc3 Hn] H Ht. unfold tot_ok in Ht3. unfold step_io in H. step_cases H.
+  intros c s ch s' l [Hpe Ht3 Hc2 Hc3 Hlate Hn] H Ht. unfold tot_ok in Ht3. unfold step_io in H. step_cases H.
   all: unfold after_read, turn_start, hc_return, goio in *.
   all: repeat match goal with |- context [if ?b then _ else _] => destruct b eqn:? end.
   all: z_hyps.
-  all: simpl in Hc3.
-  all: constructor; unfold tot_ok; simpl; try match goal with E : io _ = _ |- _ => rewrite ?E; simpl end;
+  all: simpl in Hc3, Hlate; unfold cont_len in *.
+  all: try (destruct (add_task_fields3 s) as (F1 & F2 & F3 & F4 & _)).
+  all: constructor; unfold tot_ok; simpl; rewrite ?F1, ?F2, ?F3, ?F4; try match goal with E : io _ = _ |- _ => rewrite ?E; simpl end;
        try (intros; discriminate); auto; try lia;
-       try (intros; lia);
+       try (intros; lia); try (intros; congruence);
+       try (intros Hx; specialize (Ht3 Hx); lia);
+       try (intros Hx; destruct (Hc3 Hx); [congruence|discriminate]);
        try (apply inv3_n_notify; auto); try (apply inv3_n_add_task; auto).
+  assert (Hcn : conn s = true).
+  { destruct (conn s) eqn:Ec; auto. destruct (Hc3 eq_refl); congruence. }
+  specialize (Ht3 Hcn). lia.
+Qed.
+
+Lemma inv3_step_w : forall c s i ch s' l,
+  Inv1 s -> Inv2 s -> Inv3 s -> step_w c s i ch = Some (s', l) -> taint s' = false -> Inv3 s'.
+Proof.
+  intros c s i ch s' l HI1 HI2 [Hpe Ht3 Hc2 Hc3 Hlate Hn] H Ht. unfold step_w in H.
+  destruct (getw s i) as [pc|] eqn:Hg; [|discriminate]. unfold getw in Hg.
+  assert (Hsc : w_sc pc = false) by (destruct HI1 as [_ _ Hw1 _ _]; destruct (Hw1 _ _ Hg) as (_ & _ & Hx); exact Hx).
+  assert (Hnofl : w_main pc = true -> io_uflush (io s) = false).
+  { intros Hm. destruct (i2_w _ HI2 _ _ Hg) as [Hm1 _]. specialize (Hm1 Hm).
+    destruct (io_uflush (io s)) eqn:E; auto. pose proof (i2_fl _ HI2) as Hf. rewrite E in Hf.
+    specialize (Hf eq_refl). lia. }
+  assert (Hni : forall n, wpc_n pc = Some n -> 0 < n) by (intros n0 Hx; eapply Hn; eauto).
+  unfold tot_ok in Ht3.
+  step_cases H; simpl in Hsc; try discriminate Hsc.
+  all: unfold setw, hw_exit in *.
+  all: repeat match goal with |- context [if ?b then _ else _] => destruct b eqn:? end.
+  all: repeat match goal with |- context [match ?b with SWr _ => _ | SEnd => _ end] => destruct b eqn:? end.
+  all: z_hyps.
+  all: try (specialize (Hnofl eq_refl)).
+  all: try (destruct (add_task_fields3 s) as (F1 & F2 & F3 & F4 & F5)).
+  all: constructor; unfold tot_ok; simpl; rewrite ?F1, ?F2, ?F3, ?F4, ?F5; auto; try lia.
+  all: try (intros j p n' Hj Hpn; apply nth_error_upd_inv in Hj; destruct Hj as [[-> ->]|[Hne Hj]];
+            [ simpl in Hpn; try discriminate; inversion Hpn; subst; try lia; try (apply Hni; reflexivity)
+            | try (apply ws_add_task_inv in Hj; destruct Hj as [->|Hj]; [discriminate|]); eapply Hn; eauto ]).
   all: match goal with |- ?g => idtac g end.
 Admitted.
